@@ -41,6 +41,7 @@ type c13mResult struct {
 	Dump     string         `json:"dump"`
 	Trace    []string       `json:"trace"`
 	Ms       int64          `json:"ms"`
+	Cases    [][2]string    `json:"cases"` // correspondence cases: line for the Lean driver, what the registrar answered
 }
 
 // c13mLimit only guards the harness against hanging for ever (a run that does not settle is a harness
@@ -140,7 +141,69 @@ type c13mRun struct {
 	stressDone            chan struct{}
 	stopped               bool
 	wake                  chan struct{} // a request has been answered
+	// correspondence with the reload goroutine's model (scenarios without parked requests and stress only)
+	noCases bool
+	measVer int       // version of the subnet file in force, as the last probe round measured it (-1: unknown)
+	ctx     *c13mCtx  // the reload in flight (or the last one completed, until the probe round after it)
+	ctxDone bool
 }
+
+// c13mCtx: a reload as the model sees it - the configuration it started from (measured) and what it brings
+type c13mCtx struct {
+	oldVer, oldCC  int
+	oldGens        []int
+	subOK, ccOK    bool
+	newVer, newCC  int
+	newGens        []int
+}
+
+func c13mGensText(g []int) string {
+	all := append([]int{c13mGenOld, c13mGenFuture}, g...)
+	sort.Ints(all)
+	var f []string
+	for i, x := range all {
+		if i > 0 && all[i-1] == x {
+			continue
+		}
+		f = append(f, strconv.Itoa(x))
+	}
+	return strings.Join(f, ".")
+}
+
+// caseLine: the line for the Lean driver and the canonical form of the answer ("" = not expressible)
+func (c *c13mCtx) caseLine(phase string, k c13mKind, judged string) (string, string) {
+	if c == nil || c.oldVer < 0 || c.oldCC < 0 || (c.subOK && c.ccOK && c.newVer == c.oldVer) {
+		return "", ""
+	}
+	ns, ng := "-", "-"
+	if c.subOK {
+		ns = c13mGensText(c.newGens)
+	}
+	if c.ccOK {
+		ng = strconv.Itoa(c.newCC)
+	}
+	ans := ""
+	switch {
+	case judged == "fail":
+		ans = "fail"
+	case k.entry == 'u' || k.entry == 'e':
+		if judged == "ok" {
+			ans = "ok"
+		}
+	case strings.HasPrefix(judged, "ok:") && !strings.Contains(judged, "missing"):
+		v, err := strconv.Atoi(judged[strings.LastIndexByte(judged, '=')+1:])
+		if err == nil && v == c.oldVer {
+			ans = "ok:old"
+		} else if err == nil && c.subOK && c.ccOK && v == c.newVer {
+			ans = "ok:new"
+		}
+	}
+	if ans == "" {
+		return "", ""
+	}
+	return fmt.Sprintf("gate|%s|%d|%s|%s|%s|%c|%d", c13mGensText(c.oldGens), c.oldCC, ns, ng, phase, k.entry, k.gen), ans
+}
+
 
 func (r *c13mRun) count(k string) { r.res.Counts[k]++ }
 
@@ -334,12 +397,21 @@ func (r *c13mRun) reloadDone() {
 		r.expCC = -1
 	}
 	r.needProbe = true
+	r.ctxDone = true
 	r.count("reload:completed")
 }
 
 func (r *c13mRun) send(q *c13mReq) {
 	q.lo = len(r.probes) - 1
 	q.sentAt = time.Now()
+	if !q.probe && r.ctx != nil && r.inFlight && !r.ctxDone {
+		switch {
+		case r.conf.holding() || r.cc.holding():
+			q.ctx, q.phase = r.ctx, "before"
+		case r.sub.holding() && r.ctx.subOK && r.ctx.ccOK:
+			q.ctx, q.phase = r.ctx, "subnets"
+		}
+	}
 	q.started.Store(true)
 	r.reqs[q.id] = q
 	if !q.probe {
@@ -422,6 +494,22 @@ func (r *c13mRun) probe() bool {
 			}
 		}
 	}
+	r.measVer = -1
+	if v := round[c13mEffectNew]; strings.HasPrefix(v, "ok:4=") {
+		if ver, err := strconv.Atoi(v[5:strings.IndexByte(v, '.')]); err == nil {
+			r.measVer = ver
+		}
+	}
+	if r.ctx != nil && r.ctxDone && !r.noCases {
+		// the complete round, applied by the model to the configuration measured before the reload
+		for _, ks := range r.kinds {
+			k, _ := c13mParseKind(ks)
+			if line, ans := r.ctx.caseLine("after", k, round[ks]); line != "" {
+				r.res.Cases = append(r.res.Cases, [2]string{line, ans})
+			}
+		}
+	}
+	r.ctx = nil
 	consistent := false
 	for _, g := range r.curGens {
 		if g == r.expCC {
@@ -539,6 +627,14 @@ func (r *c13mRun) hup() bool {
 		valid = false
 	}
 	r.conf = c13mFeed(e.confFifo, []byte(e.confText(ccPath, f.conf != "ok")), strings.Contains(f.gates, "c"))
+	r.ctx, r.ctxDone = nil, false
+	if g, ok := r.gensOf[r.measVer]; ok && r.ccMeas >= 0 && !r.noCases {
+		ctx := &c13mCtx{oldVer: r.measVer, oldCC: r.ccMeas, oldGens: g}
+		ctx.ccOK = f.conf == "ok" && r.ccOnDisk && f.cc != "none" && f.cc != "bad"
+		ctx.subOK = r.subOnDisk && (strings.HasPrefix(f.sub, "v") || f.sub == "same")
+		ctx.newVer, ctx.newGens, ctx.newCC = r.curVer, r.curGens, r.curCC
+		r.ctx = ctx
+	}
 	r.curValid = valid
 	if r.subOnDisk && (strings.HasPrefix(f.sub, "v") || f.sub == "same") && r.ccMeas >= 0 {
 		w := len(r.probes)
@@ -786,6 +882,11 @@ func (r *c13mRun) judge() {
 			continue
 		}
 		r.count("judged")
+		if q.ctx != nil && !r.noCases && !q.mixed {
+			if line, ans := q.ctx.caseLine(q.phase, q.kind, q.judged); line != "" {
+				r.res.Cases = append(r.res.Cases, [2]string{line, ans})
+			}
+		}
 		if q.mixed {
 			r.verdict("C13:mixed-versions", fmt.Sprintf("request %s (%s): the addresses of one response come from two versions of the subnet file: %s", q.id, q.kind.spec, q.outcome), false)
 			continue
@@ -850,7 +951,7 @@ func (r *c13mRun) judge() {
 
 func (e *c13mEnv) runScenario(idx int, line string) *c13mResult {
 	res := &c13mResult{Idx: idx, Line: line, Counts: map[string]int{}}
-	r := &c13mRun{e: e, res: res, reqs: map[string]*c13mReq{}, expVer: -1, expCC: -1, lastCCGen: -1, wake: make(chan struct{}, 1), gensOf: map[int][]int{}, ccMeas: -1}
+	r := &c13mRun{e: e, res: res, reqs: map[string]*c13mReq{}, expVer: -1, expCC: -1, lastCCGen: -1, wake: make(chan struct{}, 1), gensOf: map[int][]int{}, ccMeas: -1, measVer: -1}
 	if !strings.HasPrefix(line, "main|") {
 		r.harness("bad scenario line")
 		return res
@@ -858,6 +959,9 @@ func (e *c13mEnv) runScenario(idx int, line string) *c13mResult {
 	events := strings.Split(strings.TrimPrefix(line, "main|"), ";")
 	kinds := map[string]bool{c13mEffectNew: true, c13mEffectOld: true}
 	for _, ev := range events {
+		if ev != "" && (ev[0] == 'P' || ev[0] == 'S') {
+			r.noCases = true // a held request may keep the reload goroutine between two of its steps
+		}
 		if c := strings.IndexByte(ev, ':'); c >= 0 && strings.ContainsRune("QPS", rune(ev[0])) {
 			for _, ks := range strings.Split(ev[c+1:], ",") {
 				if i := strings.IndexByte(ks, '@'); i >= 0 {
